@@ -67,7 +67,7 @@ def gen(r, focus, tier="quick"):
         tps = r.choice([1, 2, 3, 3, 5, 7, 10, 10, 16, 30, 100, 250, 1000, 10 ** 4, 10 ** 5])
     unit = F(20, tps)
     pools = r.choice([1, 1, 1, 2, 2, 3, 4]) if focus != "C09" else r.choice([1, 2, 2, 3, 4])
-    cpus = r.choice([1, 2, 4, 8, 16]) if exact else r.choice([1, 2, 3, 4, 6, 10, 16, 64])
+    cpus = r.choice([1, 2, 4, 8, 16, 64]) if exact else r.choice([1, 2, 3, 4, 6, 10, 16, 64, 64, 128])
     over = {"C11": True, "C04": r.random() < 0.6}.get(focus, r.random() < 0.35)
     multi = True if focus in ("C10", "C11") else r.random() < 0.7
     capq = r.choice([2, 4, 8, 8, 16, 16, 32, 64, 200])
@@ -119,12 +119,14 @@ def gen(r, focus, tier="quick"):
             ops.append({"par": par[oi], "segs": segs})
         at = 0 if r.random() < 0.6 else r.randint(0, max(0, T // 2))
         pipes.append({"prio": r.choice(["QUERY", "INTERACTIVE", "BATCH_PIPELINE"]), "at": at, "ops": ops})
+        if r.random() < 0.25:
+            pipes[-1]["scratch_parents"] = True
     faults = FAULT_FOCUS.get(focus, [])
     pf = {"C04": 0.05, "C05": 0.05, "C11": 0.05}.get(focus, 0.5)
     fault = None
     if r.random() < pf:
         fault = r.choice(faults) if faults and r.random() < 0.8 else r.choice(Chaos.FAULTS)
-    cpu_list = [c for c in ([1, 2, 4, 8, 16] if exact else [1, 2, 3, 4, 5, 7, 8, 13]) if c <= cpus] or [1]
+    cpu_list = [c for c in ([1, 2, 4, 8, 16, 32, 64] if exact else [1, 2, 3, 4, 5, 7, 8, 13, 24, 63, 64, 100]) if c <= cpus] or [1]
     if not exact and r.random() < 0.15:
         cpu_list = cpu_list + [c for c in (F(3, 2), F(5, 2), F(7, 2), F(15, 2)) if c <= cpus]
     alloc_w = {"C11": [1, 0, 1, 6], "C04": [3, 3, 2, 3], "C10": [6, 1, 1, 1]}.get(
